@@ -61,7 +61,9 @@ func bandwidth(segments []muxerSegment) (int, int) {
 	var durations time.Duration
 
 	for _, seg := range segments {
-		if _, ok := seg.(*muxerGap); !ok {
+		// segments with zero duration (forced rotation on a unit with the same DTS
+		// of the previous one) do not contribute to the bandwidth
+		if _, ok := seg.(*muxerGap); !ok && seg.getDuration() > 0 {
 			bandwidth := 8 * seg.getSize() * uint64(time.Second) / uint64(seg.getDuration())
 			if bandwidth > maxBandwidth {
 				maxBandwidth = bandwidth
@@ -69,6 +71,10 @@ func bandwidth(segments []muxerSegment) (int, int) {
 			sizes += seg.getSize()
 			durations += seg.getDuration()
 		}
+	}
+
+	if durations == 0 {
+		return 0, 0
 	}
 
 	averageBandwidth := 8 * sizes * uint64(time.Second) / uint64(durations)
